@@ -62,7 +62,8 @@ def lb_config(balancers=('heap', 'aperture')):
 
 
 def strategy(tier):
-  return st.fixed_dictionaries({'config': lb_config(), 'ops': lb_ops()})
+  # thorough: longer histories
+  return st.fixed_dictionaries({'config': lb_config(), 'ops': lb_ops(100 if tier == 'quick' else 250)})
 
 
 def execute(plan, prop=ID):
